@@ -5,14 +5,17 @@ DRIVER = "drv_c31"
 
 def run(c):
     c.rule = ("layer 1: random schedules of handler pushes (single / bursts aimed at the 20 % batch threshold, bufferLen and 2*bufferLen), "
-              "sender pops with scripted write results (ok / error with k packets left), real batch timeouts, Stats, would-block reports, "
-              "reconnect tokens, Close, on the real handler+Egress+tcpPool+pktBuffer with the harness playing the sender goroutine; "
+              "sender pops with scripted write results (ok / error with k packets left), real batch timeouts, Stats, would-block reports "
+              "(also with a packet handed in - and dropped when both buffers are full - while the report is being written), "
+              "addressPool.pick sequences after replacePool, reconnect tokens, Close, on the real handler+Egress+tcpPool+pktBuffer with the harness playing the sender goroutine; "
               "layer 2: live sendLoop goroutines against loopback TCP sinks (idle tail after a partial batch, upstream unresolved then "
               "resolved with both buffers full, connection resets under traffic, the real NewEgress, an idle connection reset followed by a "
               "multi-packet batch = write error on the first packet with exact loss accounting, a one-batch burst of large packets into an "
               "upstream that reads m frames, stalls and resets = write error in the middle / towards the end of the batch with "
               "duplicate, order and bounded-in-flight-loss checks, an upstream that stops reading WITHOUT closing = the sender's write "
-              "deadline (WriteTimeout 3 s, budget 30 s) must end the blocked write, then reconnect and forward); scenarios rotate with "
+              "deadline (WriteTimeout 3 s, budget 30 s) must end the blocked write, then reconnect and forward, a primary address pool "
+              "with 1-3 dead addresses (connection refused) around one live upstream = reconnect must go round the pool, budget 16 s); "
+              "scenarios rotate with "
               "the trial index. Non-trivial = the case contains a batch timeout "
               "that has to release a partial batch / an idle tail after a partial batch, a failover, a both-buffers-full drop, a write "
               "error or an upstream reset; distinct by op-sequence hash")
@@ -69,15 +72,16 @@ META = {
              "(promptness) no wake-up is lost and after the last push <= 6 forced moves with <= 1 batch-timer expiry hand everything buffered "
              "to a successful write [never_stuck, flush_within_one_timeout, prompt_even_if_idle_partial]; a failed write gives up exactly "
              "the packet being written and the callback's return value makes pop resume right after it [write_error_skips_exactly_one, "
-             "callback_contract]; (stalled upstream) with the fixed deadline logic a sender inside pop always has a write deadline armed, "
+             "callback_contract]; (reconnection) addressPool.pick advances round-robin, so any len(addrs) consecutive reconnect attempts dial "
+             "every address of the pool [pick_kth, pick_visits_all]; (stalled upstream) with the fixed deadline logic a sender inside pop always has a write deadline armed, "
              "whose expiry ends a blocked write with exactly one packet given up [stalled_write_released]. Counter-examples by decide for the "
              "code before each fix: timer callback without Broadcast (stuck after idle tail), deadline never armed (stuck in WriteTo)."),
     "note": ("Partial. Not proved: real-time lengths (batch timer 1 s, WriteTimeout, write duration) - measured with 10x budgets; sendLoop's "
              "reconnect loop (ReconnectDelay, DialTimeout, address rotation) and TCP - exercised end to end only; scheduler fairness is the "
              "hypothesis 'the forced moves happen'; interleavings inside a critical section and the Go memory model are trusted. The write-"
              "deadline layer (PoolD/stepD) has no step-level correspondence (sendLoop cannot be single-stepped): it is tied to the code by "
-             "live scenario 6 only. The model is the code after fix 26657431 (swap timeout wakes sender) AND after "
-             "fixes/C31-write-deadline.diff (sendLoop arms the write deadline: `writeDeadline.IsZero() || ...`); until the latter is "
-             "committed the check reports VIOLATION sig=stalled-upstream-blocks-sender with a replay on the real code."),
+             "live scenario 6 only. The model is the code after fix 26657431 (swap timeout wakes sender) and fix 18236950 "
+             "(sendLoop arms the write deadline: `writeDeadline.IsZero() || ...`); on their parents the check reports "
+             "sig=sender-sleeps-through-batch-timeout / sig=stalled-upstream-blocks-sender with replays on the real code."),
     "design_ref": "DESIGN.md §6 C31",
 }
